@@ -441,4 +441,127 @@ Section Bridge.
       apply block_rel; [exact HR | | lia | lia].
       rewrite <- (ncols_shape _ _ _ Hs' np_pos). rewrite <- (ncols_div_rows_sq (opm (fst y)) s). apply shape_off_mapper_func.
   Qed.
+
+  (* ============================================================================================== *)
+  (* Part E: F_wtilde = F_mapping for the concrete kernels, as equal lists                              *)
+  Hypothesis Hrect : rectb m = true.
+  Hypothesis Hc : @convolver_init ROps m Kp = Ok c.
+  Hypothesis Hnp : np = length (unmasked m).
+  Hypothesis Hs : length s = np.
+  Hypothesis Hpos : forall i, (i < np)%nat -> 0 < nth i s 0.
+  (* the WTildeImaging token holds the preload triple computed from the dataset's noise map and PSF *)
+  Hypothesis Hpre : @preload ROps (@native ROps m s) Kp (unmasked m) = (pre, idx, lens).
+
+  Lemma rel_refl n0 (A : Rmat) : shape n0 n0 A -> Rel n0 A A.
+  Proof. intro H. split; [exact H|]. split; [exact H|]. intros a b _ _. reflexivity. Qed.
+  Lemma noreg_forall : Forall (fun k => (k < N)%nat) (@noreg_index_list ROps objs4).
+  Proof. rewrite <- tp04. apply noreg_bound. Qed.
+
+  Lemma p_curv_wt_rel : Rel N (p_curv KR inp (Some w)) (@F_wt ROps c m Kp objs4 s (in_eps inp)).
+  Proof.
+    unfold p_curv, curv_finish, with_diag, F_wt. rewrite Hpre. rewrite noreg_same.
+    pose proof (mirror_rel N _ _ p_pre_rel) as HM.
+    destruct (Nat.eqb (length (@noreg_index_list ROps objs4)) 0); cbn [negb]; [exact HM|].
+    apply add_diag_rel; [apply noreg_forall | exact HM].
+  Qed.
+  Lemma p_curv_map_rel : Rel N (p_curv KR inp None) (@F_mapping ROps c objs4 np s (in_eps inp)).
+  Proof.
+    unfold p_curv, curv_via_mm, with_diag, F_mapping, curv_mapping. cbn [KR c04k k_curv_mm]. rewrite p_omm_is_op_matrix, noreg_same.
+    cbn [andb].
+    assert (HF : Rel N (@dotTN ROps (@div_rows ROps (@op_matrix ROps c objs4 np) s) (@div_rows ROps (@op_matrix ROps c objs4 np) s))
+                       (@dotTN ROps (@div_rows ROps (@op_matrix ROps c objs4 np) s) (@div_rows ROps (@op_matrix ROps c objs4 np) s))).
+    { apply rel_refl. pose proof (shape_dotTN (@div_rows ROps (@op_matrix ROps c objs4 np) s) (@div_rows ROps (@op_matrix ROps c objs4 np) s)) as H.
+      rewrite ncols_div_rows in H. pose proof p_omm_shape as Hsh. rewrite p_omm_is_op_matrix in Hsh.
+      now rewrite (ncols_shape _ _ _ Hsh np_pos) in H. }
+    destruct (Nat.eqb (length (@noreg_index_list ROps objs4)) 0); cbn [negb]; [exact HF|].
+    apply add_diag_rel; [apply noreg_forall | exact HF].
+  Qed.
+  Theorem p_curv_same : p_curv KR inp (Some w) = p_curv KR inp None.
+  Proof.
+    destruct p_curv_wt_rel as (S1 & S1' & E1). destruct p_curv_map_rel as (S2 & S2' & E2).
+    apply (mat_ext N N); [exact S1 | exact S2 |]. intros a b Ha Hb. rewrite (E1 a b Ha Hb), (E2 a b Ha Hb).
+    pose proof (F_wt_eq_F_mapping_full m Kp c Hrect Hc objs4 s (in_eps inp) a b) as H. rewrite <- Hnp in H.
+    apply H; [apply np_pos | exact Hs | exact Hpos | apply wf04 | now rewrite tp04 | now rewrite tp04].
+  Qed.
+
+  (* ============================================================================================== *)
+  (* Part F: D_wtilde = D_mapping for the concrete kernels, as equal lists                              *)
+  Notation d := (C15.d inp).
+  Hypothesis Hd : length d = np.
+
+  Lemma map2_map_r {A B C} (f : A -> B -> C) (g : A -> B) (l : list A) : map2 f l (map g l) = map (fun x => f x (g x)) l.
+  Proof. induction l as [|a l IH]; simpl; [reflexivity|]. now rewrite IH. Qed.
+  Lemma fold_vec {X} (L : list X) (wr : X -> vwrite R) (st : Rvec -> X -> Rvec) :
+    (forall x v, In x L -> length v = N -> apply_vw KR v (wr x) = st v x /\ length (st v x) = N) ->
+    forall v, length v = N -> apply_vws KR v (map wr L) = fold_left st L v /\ length (fold_left st L v) = N.
+  Proof.
+    induction L as [|x L IH]; intros H v Hv; [split; [reflexivity|exact Hv]|]. unfold apply_vws in *. cbn [map fold_left].
+    destruct (H x v (or_introl eq_refl) Hv) as [E1 E2]. rewrite E1. apply IH; [|exact E2]. intros x' v' Hx'. apply H. now right.
+  Qed.
+  Lemma slice_step (v b : Rvec) lo hi : length v = N -> hi = (lo + length b)%nat -> (hi <= N)%nat ->
+    apply_vw KR v {| vw_lo := lo; vw_hi := hi; vw_b := b |} = @set_slice ROps v lo b /\ length (@set_slice ROps v lo b) = N.
+  Proof.
+    intros Hv -> Hle. split; [apply (apply_vw_set_slice KR); lia|]. rewrite set_slice_length; [exact Hv|lia].
+  Qed.
+
+  Theorem p_dv_map_is_D_mapping : p_dv KR inp None = @D_mapping ROps c objs4 d s.
+  Proof. unfold p_dv, D_mapping. cbn [KR c04k k_dv_bmm]. rewrite p_omm_is_op_matrix. fixR. now rewrite Hd. Qed.
+  Theorem p_dv_wt_is_D_wt : p_dv KR inp (Some w) = @D_wt ROps c m Kp objs4 d s.
+  Proof.
+    unfold p_dv, D_wt. rewrite has_func_04, ms04, fs04, mappers_len_04, total_params_tp, tp04. rewrite !fold_left_map.
+    change (p_wtd KR inp) with (@wt_data ROps (@native ROps m d) (@native ROps m s) Kp (unmasked m)).
+    set (wd := @wt_data ROps (@native ROps m d) (@native ROps m s) Kp (unmasked m)).
+    destruct (has_func inp) eqn:Ef.
+    - unfold p_dvm. change (p_wtd KR inp) with wd. unfold dvm_writes_wt, dv_func_writes. rewrite lf_fresh_opm, map2_map_r.
+      assert (Z : length (zeros_v KR N) = N) by (unfold zeros_v; apply repeat_length).
+      destruct (fold_vec (mappers inp)
+                  (fun x => {| vw_lo := fst (snd x); vw_hi := snd (snd x); vw_b := k_dv_wt KR wd (lo_mm (fst x)) (lo_p (fst x)) |})
+                  (fun dv x => @set_slice ROps dv (fst (snd (T2 x))) (@dv_wtd ROps wd (enc_of (fst (T2 x))) (params (fst (T2 x)))))) with (v := zeros_v KR N) as [E1 L1]; [|exact Z|].
+      { intros x v Hx Hv. destruct (mapper_facts x Hx) as (Ho & Hm & Hhi & Hle & Hp). unfold T2. cbn [fst snd].
+        rewrite params_to04, (enc_of_to04 _ Hm). cbn [KR c04k k_dv_wt]. apply slice_step; [exact Hv | now rewrite dv_wtd_length | exact Hle]. }
+      rewrite E1.
+      destruct (fold_vec (funcs inp)
+                  (fun x => {| vw_lo := fst (snd x); vw_hi := snd (snd x); vw_b := k_dv_bmm KR (opm (fst x)) d s |})
+                  (fun dv x => @set_slice ROps dv (fst (snd (T2 x))) (@dv_blurred ROps (opmat c (fst (T2 x))) d s))) with
+        (v := fold_left (fun dv x => @set_slice ROps dv (fst (snd (T2 x))) (@dv_wtd ROps wd (enc_of (fst (T2 x))) (params (fst (T2 x))))) (mappers inp) (zeros_v KR N))
+        as [E2 L2]; [|exact L1|].
+      { intros x v Hx Hv. destruct (func_facts x Hx) as (Ho & Hm & Hhi & Hle & Hsh & Hp). unfold T2. cbn [fst snd].
+        rewrite (opmat_to04 _ Ho). cbn [KR c04k k_dv_bmm]. apply slice_step; [exact Hv | | exact Hle].
+        now rewrite dv_blurred_length, (ncols_shape _ _ _ Hsh np_pos). }
+      exact E2.
+    - pose proof (C15k.no_func_all_mappers inp Ef) as Hall. unfold objs4.
+      destruct (Nat.eqb (length (mappers inp)) 1).
+      + destruct (objs inp) as [|o l] eqn:Eo; [reflexivity|]. cbn [map]. rewrite params_to04.
+        rewrite (enc_of_to04 o) by (apply Hall; try rewrite Eo; now left). reflexivity.
+      + rewrite map_map. apply f_equal. apply map_ext_in. intros o Ho. rewrite params_to04, (enc_of_to04 o (Hall o Ho)). reflexivity.
+  Qed.
+  Theorem p_dv_same : p_dv KR inp (Some w) = p_dv KR inp None.
+  Proof.
+    rewrite p_dv_wt_is_D_wt, p_dv_map_is_D_mapping.
+    assert (L2 : length (@D_mapping ROps c objs4 d s) = N).
+    { unfold D_mapping. rewrite dv_blurred_length. fixR. rewrite Hd. pose proof p_omm_shape as Hsh. rewrite p_omm_is_op_matrix in Hsh.
+      exact (ncols_shape _ _ _ Hsh np_pos). }
+    assert (L1 : length (@D_wt ROps c m Kp objs4 d s) = N).
+    { rewrite <- p_dv_wt_is_D_wt. unfold p_dv. destruct (has_func inp) eqn:Ef.
+      - unfold p_dvm.
+        assert (G : forall ws (v : Rvec), length (apply_vws KR v ws) = length v).
+        { intros ws. induction ws as [|w0 ws IH]; intro v; [reflexivity|]. unfold apply_vws in *. cbn [fold_left]. rewrite IH.
+          unfold apply_vw. apply imap_length. }
+        rewrite !G. unfold zeros_v. apply repeat_length.
+      - pose proof (C15k.no_func_all_mappers inp Ef) as Hall.
+        pose proof (assembled_is_concat R KR inp (fun o => k_dv_wt KR (p_wtd KR inp) (lo_mm o) (lo_p o))) as HA.
+        assert (Hlen : length (concat (map (fun o : lobj R => k_dv_wt KR (p_wtd KR inp) (lo_mm o) (lo_p o)) (objs inp))) = N).
+        { rewrite <- HA; [|intros o _; cbn [KR c04k k_dv_wt]; apply dv_wtd_length | exact Ef].
+          assert (G : forall ws (v : Rvec), length (apply_vws KR v ws) = length v).
+          { intros ws. induction ws as [|w0 ws IH]; intro v; [reflexivity|]. unfold apply_vws in *. cbn [fold_left]. rewrite IH.
+            unfold apply_vw. apply imap_length. }
+          rewrite G. unfold zeros_v. apply repeat_length. }
+        destruct (Nat.eqb (length (mappers inp)) 1) eqn:E1; [|exact Hlen].
+        apply Nat.eqb_eq in E1. rewrite (no_func_mappers R inp Ef) in E1. unfold orng in E1.
+        rewrite combine_length, ranges_from_length, Nat.min_id in E1.
+        revert Hlen. unfold objs in *. destruct (in_objs inp) as [|o [|o2 l]]; try discriminate. cbn [map concat]. now rewrite app_nil_r. }
+    apply vec_ext; [fixR; rewrite L1, L2; reflexivity|]. intros a Ha. fixR. rewrite L1 in Ha.
+    pose proof (D_wt_eq_D_mapping_full m Kp c Hrect Hc objs4 d s a) as H. rewrite <- Hnp in H.
+    apply H; [apply np_pos | exact Hd | exact Hs | intros i Hi; specialize (Hpos i Hi); lra | apply wf04 | now rewrite tp04].
+  Qed.
 End Bridge.
